@@ -141,6 +141,9 @@ type Interp struct {
 	tags        []string
 	fmtLenient  bool
 	parRegions  int
+	extInit     map[*ssa.Package]bool
+	runningExtInit int
+	onceDone    map[string]bool
 	violCount   map[string]int
 }
 
@@ -818,15 +821,26 @@ func (in *Interp) strLess(a, b StrV) *Term { // a < b lexicographically (byte-wi
 // ---------- function execution
 
 type fnMeta struct {
-	name string
-	intr intrinsic
+	name   string
+	intr   intrinsic
+	module bool
+}
+
+// callFnRaw interprets fn without consulting the intrinsic table (used for package initialisers).
+func (in *Interp) callFnRaw(fn *ssa.Function, args []Value, env []Value) Value {
+	in.stack = append(in.stack, fn.String())
+	fi := in.infoFor(fn)
+	fr := &frame{fn: fn, fi: fi, locals: make([]Value, fi.n), set: make([]bool, fi.n), env: env}
+	r := in.run(fr)
+	in.stack = in.stack[:len(in.stack)-1]
+	return r
 }
 
 func (in *Interp) metaFor(fn *ssa.Function) *fnMeta {
 	if m, ok := in.fnMetas[fn]; ok {
 		return m
 	}
-	m := &fnMeta{name: fn.String(), intr: in.lookupIntrinsic(fn)}
+	m := &fnMeta{name: fn.String(), intr: in.lookupIntrinsic(fn), module: fn.Pkg != nil && in.ld.isModulePkg(fn.Pkg.Pkg)}
 	in.fnMetas[fn] = m
 	return m
 }
@@ -841,6 +855,9 @@ func (in *Interp) callFn(fn *ssa.Function, args []Value, env []Value) Value {
 	}
 	if len(fn.Blocks) == 0 {
 		in.unsupported("call to body-less function " + fn.String())
+	}
+	if fn.Pkg != nil && !meta.module {
+		in.ensureExtInit(fn)
 	}
 	in.fnSeen[fn]++
 	in.depth++
@@ -1160,20 +1177,10 @@ func (in *Interp) iterNext(it *iterV, x *ssa.Next) Value {
 			it.i++
 			return TupleV{in.tt.tT, in.tt.Const(64, uint64(start)), in.tt.Resize(b0, 32, false)}
 		}
-		// multi-byte: only concrete bytes supported
-		bs := []byte{}
-		for j := it.i; j < len(s.b) && j < it.i+4; j++ {
-			if s.b[j].op != OpConst {
-				break
-			}
-			bs = append(bs, byte(s.b[j].val))
-		}
-		if len(bs) == 0 {
-			in.unsupported("range over string with symbolic non-ASCII byte")
-		}
-		r, size := decodeRune(bs)
+		// multi-byte: decode symbolically, forking on the byte classes of the UTF-8 grammar
+		r, size := in.decodeRuneSym(s.b[it.i:])
 		it.i += size
-		return TupleV{in.tt.tT, in.tt.Const(64, uint64(start)), in.tt.Const(32, uint64(r))}
+		return TupleV{in.tt.tT, in.tt.Const(64, uint64(start)), r}
 	}
 	if it.i >= len(it.keys) {
 		return TupleV{in.tt.tF, nil, nil}
@@ -1741,6 +1748,33 @@ func (in *Interp) builtin(fr *frame, site ssa.Instruction, b *ssa.Builtin, args 
 		return nil
 	case "print", "println":
 		return nil
+	case "recover":
+		return IfaceV{} // panics are path outcomes here: nothing is ever recovered
+	case "min", "max":
+		r := args[0].(*Term)
+		signed := true
+		if bt, ok := c.Args[0].Type().Underlying().(*types.Basic); ok {
+			_, signed, _ = basicSort(bt)
+		}
+		for _, x := range args[1:] {
+			y := x.(*Term)
+			op := OpSlt
+			if !signed {
+				op = OpUlt
+			}
+			lt := in.tt.Bin(op, y, r)
+			if b.Name() == "max" {
+				lt = in.tt.Bin(op, r, y)
+			}
+			r = in.tt.Ite(lt, y, r)
+		}
+		return r
+	case "clear":
+		if m, ok := args[0].(*MapV); ok && m != nil {
+			in.logMap("wr", m)
+			m.keys, m.vals = nil, nil
+		}
+		return nil
 	}
 	in.unsupported("builtin " + b.Name())
 	return nil
@@ -1785,3 +1819,57 @@ func (fr *frame) setv(v ssa.Value, val Value) {
 
 var qstat map[string]int
 var qstatMu sync.Mutex
+
+func (in *Interp) byteIn(b *Term, lo, hi byte) bool {
+	return in.branch(in.tt.And(in.tt.Bin(OpUle, in.tt.b8[lo], b), in.tt.Bin(OpUle, b, in.tt.b8[hi])))
+}
+
+// decodeRuneSym decodes the first UTF-8 sequence of bs (bs[0] is known to be >= 0x80) following
+// unicode/utf8.DecodeRuneInString exactly; invalid sequences give (U+FFFD, 1).
+func (in *Interp) decodeRuneSym(bs []*Term) (*Term, int) {
+	bad := in.tt.Const(32, 0xFFFD)
+	b0 := bs[0]
+	var sz int
+	var lo1, hi1 byte = 0x80, 0xBF
+	switch {
+	case in.byteIn(b0, 0xC2, 0xDF):
+		sz = 2
+	case in.byteIn(b0, 0xE0, 0xE0):
+		sz, lo1 = 3, 0xA0
+	case in.byteIn(b0, 0xED, 0xED):
+		sz, hi1 = 3, 0x9F
+	case in.byteIn(b0, 0xE1, 0xEF):
+		sz = 3
+	case in.byteIn(b0, 0xF0, 0xF0):
+		sz, lo1 = 4, 0x90
+	case in.byteIn(b0, 0xF4, 0xF4):
+		sz, hi1 = 4, 0x8F
+	case in.byteIn(b0, 0xF1, 0xF3):
+		sz = 4
+	default:
+		return bad, 1
+	}
+	if len(bs) < sz {
+		return bad, 1
+	}
+	if !in.byteIn(bs[1], lo1, hi1) {
+		return bad, 1
+	}
+	w := func(b *Term) *Term { return in.tt.Resize(b, 32, false) }
+	and := func(t *Term, m uint64) *Term { return in.tt.Bin(OpAnd, t, in.tt.Const(32, m)) }
+	shl := func(t *Term, n uint64) *Term { return in.tt.Bin(OpShl, t, in.tt.Const(32, n)) }
+	or := func(a, b *Term) *Term { return in.tt.Bin(OpOr, a, b) }
+	if sz == 2 {
+		return or(shl(and(w(b0), 0x1F), 6), and(w(bs[1]), 0x3F)), 2
+	}
+	if !in.byteIn(bs[2], 0x80, 0xBF) {
+		return bad, 1
+	}
+	if sz == 3 {
+		return or(or(shl(and(w(b0), 0x0F), 12), shl(and(w(bs[1]), 0x3F), 6)), and(w(bs[2]), 0x3F)), 3
+	}
+	if !in.byteIn(bs[3], 0x80, 0xBF) {
+		return bad, 1
+	}
+	return or(or(or(shl(and(w(b0), 0x07), 18), shl(and(w(bs[1]), 0x3F), 12)), shl(and(w(bs[2]), 0x3F), 6)), and(w(bs[3]), 0x3F)), 4
+}
